@@ -7,6 +7,7 @@ func init() {
 		r.Decides("writer/reader type tables of the RFC7951 JSON codec agree for every YANG kind the generator emits (generator type map, decode type map, per-kind assertions, wide-numeric stringification, leaf-list element kinds).",
 			"byte identity of re-rendered JSON, value-level fidelity, union member selection, list ordering.")
 		ruleTablesJSON(c, r)
+		ruleUnionConv(c, r)
 		ruleTablesLeafList(c, r)
 		ruleFloatFmt(c, r, c.funcsInScope(func(s string) bool { return s == "ygot/render.go" }, libPkgs))
 		ruleEnumLib(c, r)
@@ -16,6 +17,7 @@ func init() {
 		r.Decides("gNMI scalar wrapper produced per YANG kind is accepted by the decoder; every key kind has a string form and both parsers; every leaf-list element kind is encodable.",
 			"empty leaf-list acceptance, prefixes, ordering of ordered lists, value-level fidelity.")
 		ruleTablesGNMI(c, r)
+		ruleUnionConv(c, r)
 		ruleTablesKeys(c, r)
 		ruleTablesLeafList(c, r)
 		ruleSignConv(c, r, c.anchored("C02"), 1)
@@ -79,7 +81,7 @@ func init() {
 		r.Decides("MergeStructs deep-copies a and merges b into the copy (inputs never destinations); merge options are forwarded to every recursive copy call; every sink in the copy family writes fresh or guarded values.",
 			"the exact success boundary (which pairs conflict), union-of-leaves and commutativity at value level.")
 		ruleCopyAlias(c, r)
-		ruleOptsForward(c, r, c.anchored("C05"), 10)
+		ruleOptsForward(c, r, c.anchored("C05"), 8)
 		ruleIfaceIdentity(c, r)
 		ruleMergeUnset(c, r)
 		ruleBinaryLeaf(c, r)
@@ -248,7 +250,7 @@ func init() {
 		ruleStructMerge(c, r)
 		ruleLeafListReplace(c, r)
 		ruleListMerge(c, r)
-		ruleOptsForward(c, r, c.anchored("C31", "ytypes/leaf.go", "ytypes/choice.go"), 13)
+		ruleOptsForward(c, r, c.anchored("C31", "ytypes/leaf.go", "ytypes/choice.go"), 9)
 	})
 }
 
